@@ -78,11 +78,11 @@ func (e *Enc) applyContractVars(x ssa.Value, name string, fc *FuncC, vars map[st
 				n := e.freshName("q_r")
 				r := Term{n, sInt}
 				e.inQuant++
-				inner := tImp(m.wildCond(r), e.allowedWrite(m.heapName, r))
+				inner := tImp(m.wildCond(r), e.allowedWrite(m.heapName, r, nil))
 				e.inQuant--
 				cond = Term{fmt.Sprintf("(forall ((%s Int)) %s)", n, inner.S), sBool}
 			} else {
-				cond = e.allowedWrite(m.heapName, m.ref)
+				cond = e.allowedWrite(m.heapName, m.ref, m.idx)
 			}
 			if cond.S != "true" {
 				e.oblige("frame", fmt.Sprintf("%s modifies %s", site, m.t.Text), e.fc.frameTags(), cond, pos)
@@ -95,6 +95,9 @@ func (e *Enc) applyContractVars(x ssa.Value, name string, fc *FuncC, vars map[st
 		h := st.heapGet(e, m.heapName, srt)
 		if m.wild {
 			nh := e.havoc(m.heapName, srt)
+			if ax := e.heapTyping(m.heapName, nh); ax != "" {
+				e.emit("%s", ax)
+			}
 			n := e.freshName("q_r")
 			r := Term{n, sInt}
 			e.inQuant++
@@ -102,8 +105,14 @@ func (e *Enc) applyContractVars(x ssa.Value, name string, fc *FuncC, vars map[st
 			e.inQuant--
 			e.assume(Term{fmt.Sprintf("(forall ((%s Int)) (! %s :pattern (%s)))", n, fact.S, tSelect(nh, r).S), sBool})
 			st.heap[m.heapName] = nh
+		} else if m.idx != nil {
+			inner := tSelect(h, m.ref)
+			cell := e.havoc(m.heapName+".elem", tSelect(inner, *m.idx).Sort)
+			e.cellTyping(m.heapName, cell)
+			st.heap[m.heapName] = e.def(m.heapName, tStore(h, m.ref, tStore(inner, *m.idx, cell)))
 		} else {
 			cell := e.havoc(m.heapName+".cell", tSelect(h, m.ref).Sort)
+			e.cellTyping(m.heapName, cell)
 			st.heap[m.heapName] = e.def(m.heapName, tStore(h, m.ref, cell))
 		}
 	}
@@ -234,7 +243,7 @@ func (e *Enc) copyOp(x *ssa.Call, st *State) {
 	n := e.def("copyn", tIte(Term{app("<", dl.S, sl.S), sBool}, dl, sl))
 	darr := Term{app("Slice_arr", dst.S), sInt}
 	if e.fc != nil {
-		cond := tOr(tEq(n, tInt(0)), e.allowedWrite(name, darr))
+		cond := tOr(tEq(n, tInt(0)), e.allowedWrite(name, darr, nil))
 		if cond.S != "true" {
 			e.oblige("frame", e.p.srcLine(x.Pos()), e.fc.frameTags(), cond, x.Pos())
 		}
